@@ -162,6 +162,8 @@ def gen_history(rng, length, readonly_safe=False, valkeys=None, funcs=3):
         if rng.random() < 0.4:  # the call gets another result: what was stored next to the old one is gone, the rest stays
             block += [["rmeta", f, a, mk], ["memoize", f, a, rng.choice(["s0", "k3", "num", "none", "none"]), None]]
         block += [["rmeta", f, a, mk], ["forget_call", f, a], ["rmeta", f, a, mk]]
+        if (f + a) % 2:  # (no draw) ... and the call is made again with the very same result: its metadata stays forgotten
+            block += [["memoize", f, a, "u%d%d" % (f, a), None], ["rmeta", f, a, mk], ["forget_call", f, a]]
         at = rng.randrange(len(ops) + 1)
         ops[at:at] = block
     # aimed block: a call is memoized, memoized again with another value, then read through the memento of the first write
